@@ -170,6 +170,32 @@ def random_polyham(rng):
     return PolyHam(mons), x0, float(np.max(om))
 
 
+def duffing_polyham(rng):
+    """Three uncoupled Duffing oscillators at amplitude 1.5-3 (integrable: error growth is linear, kappa modest).  At loose
+    tolerances the fifth-order controller is observed to REJECT steps on this problem, which the small-amplitude random
+    Hamiltonians never make it do — the bookkeeping of rejected attempts (stage store, FSAL slope, dense output) is only
+    exercised here."""
+    mons = {}
+    rate2 = 0.0
+    x0 = np.zeros(6)
+    for i in range(3):
+        w2, c4 = float(rng.uniform(0.5, 2.0)), float(rng.uniform(0.5, 2.0))
+        a = float(rng.uniform(1.5, 3.0)) * (1 if rng.random() < 0.5 else -1)
+        e = [0] * 6
+        e[3 + i] = 2
+        mons[tuple(e)] = 0.5
+        e = [0] * 6
+        e[i] = 2
+        mons[tuple(e)] = 0.5 * w2
+        e = [0] * 6
+        e[i] = 4
+        mons[tuple(e)] = 0.25 * c4
+        x0[i] = a * np.cos(0.3 * i)
+        x0[3 + i] = a * np.sin(0.3 * i)
+        rate2 = max(rate2, w2 + 3 * c4 * a * a)
+    return PolyHam(mons), x0, float(np.sqrt(rate2))
+
+
 class HamEnv:
     """Builds hiten polynomial Hamiltonian systems from a PolyHam (index tables of degree 4, built once)."""
 
@@ -645,6 +671,14 @@ def new_ham(ctx, env):
     return HamProblem(ham, x0, rate, T=4 * 2 * np.pi / rate), env.hamenv().system(ham)
 
 
+def new_duffing(ctx, env):
+    ham, x0, rate = duffing_polyham(ctx.rng)
+    HP = HamProblem(ham, x0, rate, T=float(ctx.rng.uniform(10.0, 20.0)))
+    HP.label = HP.family = "duffing"
+    HP.tols = [1e-4, 1e-5, 1e-6, 1e-8]
+    return HP, env.hamenv().system(ham)
+
+
 def m3_order(ctx, env, probs, hams):
     """Empirical order.  A family whose finite-window estimate falls below p - 0.5 gets up to two further opinions on
     fresh random instances of the same family (a dip of the leading error term is instance specific, a loss of order is
@@ -772,7 +806,8 @@ def m4_adaptive(ctx, env, probs, hams, tols):
                 # hiten's in 9 % of 120 runs (max 4e3 / 4e3); no other family exceeds 25x (hiten) / 140x (SciPy)
                 ctx.skip("M4: DOP853 on the scalar forced problem is outside the method's reliable regime")
                 continue
-            for tol in tols:
+            tols_here = list(getattr(P, "tols", tols))
+            for tol in tols_here:
                 nst, e_yard = _yardstick(P, order, tol)
                 nsteps[tol], yard[tol] = nst, e_yard
                 for gname, tg in _grids(rng, P.t0, P.T, nst, gridnames):
@@ -784,7 +819,7 @@ def m4_adaptive(ctx, env, probs, hams, tols):
                     sol = integ.integrate(sysm, y0.copy(), tg_in)
                     ref = P.exact(tg)
                     st = np.asarray(sol.states)
-                    cls = f"M4:adaptive{order}:{'hamiltonian' if is_ham else 'generic'}:{gname}"
+                    cls = f"M4:adaptive{order}:{('hamiltonian-' + P.family) if is_ham else 'generic'}:{gname}"
                     ctx.case(cls, [P.key(), order, tol, gname, tg.size], nontrivial=gname != "endpoint")
 
                     def wit(extra=None):
@@ -833,7 +868,7 @@ def m4_adaptive(ctx, env, probs, hams, tols):
             # 1e-11 as inaccurate as at 1e-9, SciPy's own DOP853 gaining 11x from 1e-10 to 1e-12), so the clause asks
             # for slope >= SHRINK_SLOPE over a span of at least 1e4 - or an error already at the dense-output yardstick.
             floor = max(1e-13 * scale, 30 * acc)
-            pts = [(tol, fine_err[tol]) for tol in tols if tol in fine_err and fine_err[tol] > floor]
+            pts = [(tol, fine_err[tol]) for tol in tols_here if tol in fine_err and fine_err[tol] > floor]
             if len(pts) >= 3 and pts[0][0] / pts[-1][0] >= 1e4 * (1 - 1e-9):
                 lx, ly = np.log([q[0] for q in pts]), np.log([q[1] for q in pts])
                 slope = float(np.polyfit(lx, ly, 1)[0])
@@ -1029,7 +1064,9 @@ def run(ctx):
                 hams.append(new_ham(ctx, env))
         guarded(ctx, "hamiltonian setup", build_hams)
         guarded(ctx, "M3", m3_order, ctx, env, probs, hams)
-        guarded(ctx, "M4", m4_adaptive, ctx, env, probs, hams, tols)
+        duff = []
+        guarded(ctx, "duffing setup", lambda: duff.extend(new_duffing(ctx, env) for _ in range(2)))
+        guarded(ctx, "M4", m4_adaptive, ctx, env, probs, hams + duff, tols)
     guarded(ctx, "M4b", m4_timescale, ctx, env, ctx.pick(3, 6 * ctx.nshards), ctx.pick([1e-2, 1e2, 1e4], [1e-4, 1e-2, 1e1, 1e2, 1e3, 1e4, 1e6]),
             ctx.pick([1e-7, 1e-10], [1e-6, 1e-8, 1e-10, 1e-12]))
     guarded(ctx, "M5", m5_cr3bp, ctx, ctx.pick(4, 8 * ctx.nshards))
